@@ -32,6 +32,15 @@ type GhostFn struct {
 	Ret    string
 }
 
+// AtCall: `at call <callee>#<k> assert|assume-not <expr>`: an assertion evaluated in the caller's scope
+// immediately before the k-th call (in block order) whose callee key ends with the given name.
+type AtCall struct {
+	Callee string
+	Ord    int
+	C      Clause
+	Used   bool
+}
+
 type LoopContract struct {
 	Ordinal    int
 	Invariants []Clause
@@ -58,6 +67,8 @@ type FuncContract struct {
 	MayPanic       bool
 	CheckAsserts   bool
 	Lemmas         []Clause // assert-style lemmas proved at function entry under requires
+	AtCalls        []AtCall // assertions attached to call sites of the body
+	NoNilCheck     bool     // nil-dereference obligations are assumed instead of proved (reported)
 	Witness        []string
 	File           string
 	Line           int
@@ -304,6 +315,26 @@ func (cs *ContractSet) LoadContractFile(path, pkgPath string) error {
 					cur.Modifies = append(cur.Modifies, e)
 				}
 			}
+		case "at": // at call <callee>#<k> assert <expr>
+			if cur == nil {
+				return fmt.Errorf("%s:%d: at outside func", path, ln)
+			}
+			f := strings.Fields(rest)
+			if len(f) < 4 || f[0] != "call" || f[2] != "assert" {
+				return fmt.Errorf("%s:%d: expected `at call <callee>#<k> assert <expr>`", path, ln)
+			}
+			name := f[1]
+			ord := 1
+			if i := strings.LastIndex(name, "#"); i >= 0 {
+				ord, _ = strconv.Atoi(name[i+1:])
+				name = name[:i]
+			}
+			src := strings.TrimSpace(rest[strings.Index(rest, " assert ")+8:])
+			e, err := parseExpr(src)
+			if err != nil {
+				return fmt.Errorf("%s:%d: %v", path, ln, err)
+			}
+			cur.AtCalls = append(cur.AtCalls, AtCall{Callee: name, Ord: ord, C: Clause{E: e, Src: src, File: filepath.Base(path), Line: ln}})
 		case "ghostfn":
 			if cur == nil {
 				return fmt.Errorf("%s:%d: ghostfn outside func", path, ln)
@@ -355,6 +386,8 @@ func (cs *ContractSet) LoadContractFile(path, pkgPath string) error {
 			cur.MayPanic = true
 		case "checkasserts":
 			cur.CheckAsserts = true
+		case "nonilcheck":
+			cur.NoNilCheck = true
 		case "witness":
 			cur.Witness = append(cur.Witness, rest)
 		default:
